@@ -101,6 +101,10 @@ def check_case(p, ctx):
         for vid, (x, y) in saved.items():
             R.vertices[vid].x, R.vertices[vid].y = x, y
     kw = dict(when=0, metadata={"ignore_four": p["ignore_four"]}, circle_fit_method=p["fit"])
+    if not p["ignore_four"] and p.get("seed", 0) % 2:
+        del kw["metadata"]                      # documented default: junctions of four or more are kept
+        if p["fit"] == "dlite":
+            del kw["circle_fit_method"]
     if p["angle_limit"] == "inf":
         kw["angle_limit"] = np.inf
     call(fsys.build_force_matrix, **kw)
